@@ -65,6 +65,7 @@ CFGS = {
     'drq4_cw': (MINMAX, C(None, T(4, True, GR.CHANNELWISE), CP.INTEGER)),
     'wo8a_cw': (MINMAX, C(None, T(8, False, GR.CHANNELWISE), CP.FLOAT, True)),
     'wo8s_tw': (MINMAX, C(None, T(8, True, GR.TENSORWISE), CP.FLOAT, True)),
+    'wo8s_cw': (MINMAX, C(None, T(8, True, GR.CHANNELWISE), CP.FLOAT, True)),
     'wo4s_cw': (MINMAX, C(None, T(4, True, GR.CHANNELWISE), CP.FLOAT, True)),
     'wo4a_tw': (MINMAX, C(None, T(4, False, GR.TENSORWISE), CP.FLOAT, True)),
     'wo4a_cw': (MINMAX, C(None, T(4, False, GR.CHANNELWISE), CP.FLOAT, True)),
@@ -84,6 +85,8 @@ DRQ = [k for k in CFGS if k.startswith('drq')]
 WO = [k for k in CFGS if k.startswith('wo')]
 FLOAT_COMPUTE = DRQ + WO + ['fp16']
 GOOD = [k for k in CFGS if not k.startswith('bad')]
+# same stored weights (bit width, symmetry, granularity), different compute mode: the bytes of a tied constant can be shared
+SAME_WEIGHT_FAMILIES = [['drq8_cw', 'wo8s_cw'], ['drq8_tw', 'wo8s_tw'], ['drq4_cw', 'wo4s_cw']]
 
 
 def mode_of(name):
